@@ -145,6 +145,18 @@ def valid_program(case):
     ops = case['ops']
     if not any(o['op'] == 'main' for o in ops):
         return False
+    # every {name:x} refers to a name saved earlier in the program
+    import re as _re
+    saved = set()
+    for o in ops:
+        texts = [o.get('eqn'), o.get('term')] + [e for _c, e in (o.get('weights') or [])]
+        for t in texts:
+            if isinstance(t, str):
+                for nm in _re.findall(r'\{name:([A-Za-z0-9_]+)\}', t):
+                    if nm not in saved:
+                        return False
+        if o['op'] == 'GetVariableName':
+            saved.add(o['save_as'])
     d = R.declare(ops)
     for mh in d.models:
         for mk in R.goods_markets(d, mh):
